@@ -257,7 +257,7 @@ def _learn(ck: Check, repo: Repo) -> None:
     cfg = CFG(fn.node)
     tb = TermBuilder(repo, fn, cfg=cfg, depth=0)
     calls = [c for c in calls_in(fn.node) if call_name(c) == "self._dqn_loss"]
-    ck.floor("C18.5", len(calls), 4, "_dqn_loss calls in learn (1-step / n-step x PER / non-PER)")
+    ck.floor("C18.5", len(calls), 4, "_dqn_loss calls in learn (1-step / n-step x PER / non-PER)", fn=fn)
     for c in calls:
         n = cfg.node_of(c)
         g = tb.term(c.args[5], n) if len(c.args) > 5 else None
